@@ -81,6 +81,19 @@ theorem canonList_eq_map {l : List Tree} (h : ∀ k ∈ l, k.value.isNormal = tr
     rw [canonList_cons_normal (h k List.mem_cons_self), ih (fun x hx => h x (List.mem_cons_of_mem _ hx))]
     rfl
 
+/-- Permuting the attribute nodes of a node does not change its canonical form. -/
+theorem canon_attr_perm (v : Value) (pre A A' rest : List Tree) (p : A.Perm A')
+    (hA : ∀ k ∈ A, ¬ k.value.isNormal = true) (nd : attrNamesNodup (pre ++ A ++ rest) = true) :
+    canon (.node v (pre ++ A ++ rest)) = canon (.node v (pre ++ A' ++ rest)) := by
+  have hA' : ∀ k ∈ A', ¬ k.value.isNormal = true := fun k hk => hA k (p.symm.subset hk)
+  have hp : (pre ++ A ++ rest).Perm (pre ++ A' ++ rest) := (p.append_left pre).append_right rest
+  have hs : sortAttrs (attrPairs (pre ++ A ++ rest)) = sortAttrs (attrPairs (pre ++ A' ++ rest)) :=
+    (sortAttrs_eq_iff_perm (by simpa [attrNamesNodup, keysNodup] using nd)).mpr (attrPairs_perm hp)
+  have hc : canon.canonList (pre ++ A ++ rest) = canon.canonList (pre ++ A' ++ rest) := by
+    simp only [canonList_append, canonList_eq_nil hA, canonList_eq_nil hA']
+  simp only [canon, hc]
+  cases v <;> simp only [cvalue, hs]
+
 /-! ### Children -/
 
 /-- `canon` keeps exactly the children `Xot::children` iterates over … -/
